@@ -57,6 +57,14 @@
 #define CQV_REF_INSIDE(e, n) ((void)0)
 #endif
 
+/* A pointer returned by a callee that is replaced by its contract is a nondeterministic pointer
+ * constrained by the ensures clause; CBMC's points-to analysis then lets it alias every object
+ * (here the 32 KiB hash table => memory blow-up).  The overlay re-anchors it right after the call:
+ * asserted to lie in its buffer, then assigned base + its own offset, which is the identity. */
+#define CQV_REANCHOR(p, base) { \
+    __CPROVER_assert(__CPROVER_same_object(p, base), "re-anchor is the identity: returned pointer lies in its buffer"); \
+    __CPROVER_ssize_t cqv_ro = __CPROVER_POINTER_OFFSET(p) - __CPROVER_POINTER_OFFSET(base); p = (base) + cqv_ro; }
+
 /* ghost index (arbitrary byte of dst) and its pre-state value: 'refused => not written' */
 size_t cqv_k;
 uint8_t cqv_old_dst_k;
